@@ -132,8 +132,8 @@ def check_trace(files, order, mode, rc, out, err):
     if rc is None:
         return [("timeout", {})]
     # the property says "exits non-zero exactly when some file failed": any ordinary non-zero status is a failure verdict
-    # (DESIGN 0.3 item 23); a panic (101) or a signal is a crash, not a verdict
-    if rc < 0 or rc == 101 or rc >= 126:
+    # (DESIGN 0.3 item 23); a panic (101) or a signal (negative here) is a crash, not a verdict
+    if rc < 0 or rc == 101:
         return [("exit-status-%s" % rc, {"stderr": err[-400:]})]
     sections, summary = parse_output(out, err, order)
     models = {n: model_file(files[n]) for n in order}
@@ -310,7 +310,7 @@ def work_many(chunk):
             nlines_fail = len(re.findall(r"^File .* Fail$", out, re.M))
             nlines_pass = len(re.findall(r"^File .* Pass$", out, re.M))
             bad = None
-            if rc is None or rc < 0 or rc == 101 or rc >= 126:
+            if rc is None or rc < 0 or rc == 101:
                 bad = "many-inputs:exit-status-%s" % rc
             elif (rc != 0) != (nfail > 0):
                 bad = "many-inputs:exit-status-%d-with-%d-failing-inputs" % (rc, nfail)
